@@ -25,6 +25,11 @@ OUTSIDE = ["histories longer than the stated depth", "keys other than the listed
 KS = ["C", "eb", "F#"]
 
 
+def _rel(k):
+    i = (T.MINOR_KEYS if T.key_is_minor(k) else T.MAJOR_KEYS).index(k)
+    return (T.MAJOR_KEYS if T.key_is_minor(k) else T.MINOR_KEYS)[i]
+
+
 def _battery(k):
     return [
         ("keys.get_notes", lambda: keys.get_notes(k)),
@@ -42,6 +47,8 @@ def _battery(k):
         ("chords.from_shorthand", lambda: chords.from_shorthand(T.key_tonic(k) + "m7|" + T.key_tonic(k))),
         ("chords.determine", lambda: chords.determine(["C", "E", "G", "B"], True)),
         ("keys.get_key", lambda: keys.get_key(keys.get_key_signature(k))),
+        ("keys.get_notes(relative)", lambda: keys.get_notes(_rel(k))),
+        ("chords.sevenths(relative)", lambda: chords.sevenths(_rel(k))),
         ("scales.Chromatic", lambda: scales.Chromatic(k).ascending()),
     ]
 
